@@ -46,7 +46,7 @@ def run_demo():
         ok = r.returncode==0 and 'FAIL' not in r.stdout and 'panic:' not in r.stdout
         return ok, r.stdout[-600:]
     else:
-        txt=open(demo).read().replace('/tmp/m9-out/%s'%prop,'/tmp/mutcheck-out').replace('/tmp/m9/%s'%prop, WT).replace('/tmp/m8-out/%s'%prop,'/tmp/mutcheck-out').replace('/tmp/m8/%s'%prop, WT).replace('/tmp/m7-out/%s'%prop,'/tmp/mutcheck-out').replace('/tmp/m7/%s'%prop, WT).replace('/tmp/m6-out/%s'%prop,'/tmp/mutcheck-out').replace('/tmp/m6/%s'%prop, WT).replace('/tmp/m5-out/%s'%prop,'/tmp/mutcheck-out').replace('/tmp/m5/%s'%prop, WT).replace('/tmp/m4-out/%s'%prop,'/tmp/mutcheck-out').replace('/tmp/m4/%s'%prop, WT).replace('/tmp/mut2/%s-out'%prop,'/tmp/mutcheck-out').replace('/tmp/mut/%s-out'%prop,'/tmp/mutcheck-out').replace('/tmp/mut2/%s'%prop, WT).replace('/tmp/m3-out/%s'%prop,'/tmp/mutcheck-out').replace('/tmp/m3/%s'%prop, WT).replace('/tmp/mut/%s'%prop, WT); os.makedirs('/tmp/mutcheck-out',exist_ok=True)
+        txt=open(demo).read().replace('/tmp/m10-out/%s'%prop,'/tmp/mutcheck-out').replace('/tmp/m10/%s'%prop, WT).replace('/tmp/m9-out/%s'%prop,'/tmp/mutcheck-out').replace('/tmp/m9/%s'%prop, WT).replace('/tmp/m8-out/%s'%prop,'/tmp/mutcheck-out').replace('/tmp/m8/%s'%prop, WT).replace('/tmp/m7-out/%s'%prop,'/tmp/mutcheck-out').replace('/tmp/m7/%s'%prop, WT).replace('/tmp/m6-out/%s'%prop,'/tmp/mutcheck-out').replace('/tmp/m6/%s'%prop, WT).replace('/tmp/m5-out/%s'%prop,'/tmp/mutcheck-out').replace('/tmp/m5/%s'%prop, WT).replace('/tmp/m4-out/%s'%prop,'/tmp/mutcheck-out').replace('/tmp/m4/%s'%prop, WT).replace('/tmp/mut2/%s-out'%prop,'/tmp/mutcheck-out').replace('/tmp/mut/%s-out'%prop,'/tmp/mutcheck-out').replace('/tmp/mut2/%s'%prop, WT).replace('/tmp/m3-out/%s'%prop,'/tmp/mutcheck-out').replace('/tmp/m3/%s'%prop, WT).replace('/tmp/mut/%s'%prop, WT); os.makedirs('/tmp/mutcheck-out',exist_ok=True)
         tmp='/tmp/mutcheck-demo.sh'; open(tmp,'w').write(txt)
         r=sh(f'bash {tmp} 2>&1 | tail -25', timeout=900)
         r2=sh(f'bash {tmp} >/dev/null 2>&1; echo $?')
